@@ -753,9 +753,14 @@ func (nw *netw) step() bool {
 	return did
 }
 
-func (nw *netw) startAll() {
+func (nw *netw) startAll(directed bool) {
 	for _, i := range nw.reals {
 		nw.evStart(nw.nodes[i])
+		if directed {
+			// the proposer's block must be out before its propose timer fires
+			nw.pollTimers()
+			nw.releaseAll()
+		}
 	}
 }
 
@@ -785,9 +790,10 @@ func (nw *netw) runLoop(deadline time.Time) {
 
 func (nw *netw) run() {
 	deadline := nw.t0.Add(time.Duration(nw.cfg.MaxWall * float64(time.Second)))
-	nw.startAll()
-	if d := directedScenario(nw.cfg.Style); d != nil {
-		nw.directed = true
+	d := directedScenario(nw.cfg.Style)
+	nw.directed = d != nil
+	nw.startAll(d != nil)
+	if d != nil {
 		d(nw)
 		nw.directed = false
 		nw.cfg.Style = "benign"
